@@ -17,6 +17,7 @@
 #include <cstring>
 #include <limits>
 #include <type_traits>
+#include <sys/time.h>
 #include <unistd.h>
 
 #if defined(__clang__)
@@ -82,6 +83,43 @@ static void trap_handler(int sig) {
     g_trapped = 1;
     g_trap_sig = sig;
     siglongjmp(g_jb, 1);
+}
+
+// Bounded-progress watchdog in *CPU* time (ITIMER_VIRTUAL, so machine load does not matter): a
+// 1 s tick; when the same case has been inside a library phase for g_hang_limit consecutive ticks
+// the call is abandoned like a trap, with sig = SIGVTALRM ("does not return").
+static volatile uint64_t g_tick_case = ~0ull;
+static volatile long g_tick_inst = -2;
+static volatile int g_tick_same = 0;
+static volatile int g_hang_limit = 20;
+static void tick_handler(int sig) {
+    if (!g_armed || g_phase == PH_ORACLE) { g_tick_same = 0; return; }
+    if (g_case == g_tick_case && g_inst == g_tick_inst) {
+        if (++g_tick_same >= g_hang_limit) {
+            g_tick_same = 0;
+            g_trapped = 1;
+            g_trap_sig = sig;
+            siglongjmp(g_jb, 1);
+        }
+    } else {
+        g_tick_case = g_case;
+        g_tick_inst = g_inst;
+        g_tick_same = 0;
+    }
+}
+
+inline void install_watchdog(int cpu_seconds) {
+    g_hang_limit = cpu_seconds;
+    struct sigaction sa;
+    memset(&sa, 0, sizeof(sa));
+    sa.sa_handler = tick_handler;
+    sa.sa_flags = SA_NODEFER | SA_RESTART;
+    sigemptyset(&sa.sa_mask);
+    sigaction(SIGVTALRM, &sa, nullptr);
+    struct itimerval it;
+    it.it_interval.tv_sec = 1; it.it_interval.tv_usec = 0;
+    it.it_value = it.it_interval;
+    setitimer(ITIMER_VIRTUAL, &it, nullptr);
 }
 
 inline void install_handlers() {
